@@ -17,7 +17,6 @@ import (
 	_ "cuelang.org/go/internal/verif/h/c20"
 	_ "cuelang.org/go/internal/verif/h/c13"
 	_ "cuelang.org/go/internal/verif/h/c15"
-	_ "cuelang.org/go/internal/verif/h/c14"
 	_ "cuelang.org/go/internal/verif/h/c09"
 )
 
